@@ -63,6 +63,9 @@ proof fn lemma_dec_enc_u32s_all(s: Seq<u32>, tail: Seq<u8>)
     assert(dec_u32s(enc_u32s(s) + tail, s.len() as int) =~= s);
 }
 
+spec fn zeros(n: int) -> Seq<u32> { Seq::new(n as nat, |i: int| 0u32) }
+// how many coupon words a LIST image stores
+spec fn list_stored(lg_arr: usize, count: usize, compact: bool) -> int { if compact { count as int } else { pow2(lg_arr as nat) as int } }
 // the non-empty coupons of a table, in table order
 spec fn nz(s: Seq<u32>) -> Seq<u32> decreases s.len() {
     if s.len() == 0 { Seq::empty() } else if s.last() != 0 { nz(s.drop_last()).push(s.last()) } else { nz(s.drop_last()) }
@@ -98,6 +101,17 @@ proof fn lemma_nz_all_zero(s: Seq<u32>)
   decreases s.len()
 {
     if s.len() > 0 { lemma_nz_all_zero(s.drop_last()); }
+}
+proof fn lemma_nz_append_zeros(s: Seq<u32>, n: int)
+  requires n >= 0
+  ensures nz(s + zeros(n)) == nz(s)
+  decreases n
+{
+    if n == 0 { assert(s + zeros(0) =~= s); }
+    else {
+        lemma_nz_append_zeros(s, n - 1);
+        assert((s + zeros(n)).drop_last() =~= s + zeros(n - 1));
+    }
 }
 proof fn lemma_nz_nonzero(s: Seq<u32>, j: int)
   requires 0 <= j < nz(s).len()
@@ -144,6 +158,7 @@ impl<T> VxIo<T> for Result<T, std::io::Error> {
   { unimplemented!() }
 }
 
+#[verifier::external_body] fn vx_err_deserial() -> Error { unimplemented!() }   // `Error::deserial(format!(..))`
 // the largest coupon table a valid HLL image has: lg_arr <= lg_k - 3 <= 18 (beyond that the sketch is in HLL mode)
 spec const MAX_COUPON_SLOTS: usize = 0x4_0000;
 // `vec![x; n]`: the allocation bound of C14 is the precondition
@@ -390,32 +405,39 @@ impl List {
     ) -> (r: Result<Self, Error>)
       requires lg_arr <= 255, coupon_count <= 255,    // each comes from ONE header byte (HllSketch::deserialize: `lg_arr as usize`, `state as usize`); nothing else is assumed
       ensures
-        /*@C13.list.accepts*/ (compact || lg_arr <= 18) && cursor.rem().len() >= 4 * (if compact { coupon_count as int } else { pow2(lg_arr as nat) as int }) ==> r is Ok,
-        /*@C14.list.rejects_truncated*/ (compact || lg_arr <= 26) && !empty && coupon_count > 0 && cursor.rem().len() < 4 * (if compact { coupon_count as int } else { pow2(lg_arr as nat) as int }) ==> r is Err,
+        /*@C13.list.accepts*/ lg_arr <= 18 && list_stored(lg_arr, coupon_count, compact) <= pow2(lg_arr as nat) && cursor.rem().len() >= 4 * list_stored(lg_arr, coupon_count, compact) ==> r is Ok,
+        /*@C14.list.rejects_truncated*/ lg_arr <= 26 && !empty && coupon_count > 0 && cursor.rem().len() < 4 * list_stored(lg_arr, coupon_count, compact) ==> r is Err,
+        /*@C14.list.rejects_overfull*/ lg_arr <= 26 && list_stored(lg_arr, coupon_count, compact) > pow2(lg_arr as nat) ==> r is Err,
         /*@C13.list.lg_arr*/ r matches Ok(a) ==> a.container.lg_size == lg_arr,
         /*@C13.list.count*/ r matches Ok(a) ==> a.container.len == coupon_count,
-        /*@C13.list.coupons*/ r matches Ok(a) ==> !empty && coupon_count > 0 ==> a.container.coupons@ == dec_u32s(cursor.rem(), a.container.coupons@.len() as int),
-        /*@C13.list.slots*/ r matches Ok(a) ==> (compact || lg_arr <= 26) ==> a.container.coupons@.len() == (if compact { coupon_count as int } else { pow2(lg_arr as nat) as int }),
+        /*@C13.list.coupons*/ r matches Ok(a) ==> lg_arr <= 26 && !empty && coupon_count > 0 ==> a.container.coupons@ == dec_u32s(cursor.rem(), list_stored(lg_arr, coupon_count, compact)) + zeros(pow2(lg_arr as nat) - list_stored(lg_arr, coupon_count, compact)),
+        /*@C13.list.empty*/ r matches Ok(a) ==> lg_arr <= 26 && !(!empty && coupon_count > 0) ==> a.container.coupons@ == zeros(pow2(lg_arr as nat) as int),
         /*@C14.list.wf_lg*/ r matches Ok(a) ==> a.container.wf_lg(),
         /*@C11.C13.list.wf_capacity*/ r matches Ok(a) ==> a.container.wf_capacity(),
         /*@C14.list.wf_len*/ r matches Ok(a) ==> a.container.wf_len(),
     {
         proof { if lg_arr <= 26 { lemma_shl_us(lg_arr); } }
-        // Compute array size
-        let array_size = if compact { coupon_count } else { 1 << lg_arr };
+        // The table always has 2^lg_arr slots; a compact image stores only the first `coupon_count` of them
+        let array_size = 1 << lg_arr;
+        let num_stored = if compact { coupon_count } else { array_size };
+        if num_stored > array_size {
+            return Err(vx_err_deserial());
+        }
         let ghost p0 = cursor.rem();
 
         // Read coupons
         let mut coupons = vx_vec_u32(0u32, array_size);
+        proof { if lg_arr < 64 { lemma_shl_small(lg_arr); lemma_shl_us(lg_arr); } }
         if !empty && coupon_count > 0 {
             let mut vx_i1 = 0;
-            while vx_i1 < coupons.len()
+            while vx_i1 < num_stored && vx_i1 < coupons.len()
               invariant
-                coupons@.len() == array_size, vx_i1 <= array_size,
+                coupons@.len() == array_size, vx_i1 <= num_stored <= array_size,
                 p0.len() >= 4 * vx_i1,
                 cursor.rem() == p0.skip(4 * vx_i1),
                 forall|j: int| 0 <= j < vx_i1 ==> coupons@[j] == dec_u32_at(p0, j),
-              decreases array_size - vx_i1
+                forall|j: int| vx_i1 <= j < array_size ==> coupons@[j] == 0,
+              decreases num_stored - vx_i1
             {
                 let i = vx_i1;
                 let coupon = &mut coupons[vx_i1];
@@ -423,7 +445,9 @@ impl List {
                 proof { lemma_skip_word(p0, vx_i1 as int); }
                 vx_i1 += 1;
             }
-            proof { assert(coupons@ =~= dec_u32s(p0, array_size as int)); }
+            proof { assert(coupons@ =~= dec_u32s(p0, num_stored as int) + zeros(array_size - num_stored)); }
+        } else {
+            proof { assert(coupons@ =~= zeros(array_size as int)); }
         }
 
         Ok(Self {
@@ -569,6 +593,8 @@ impl HashSet {
     ) -> (r: Result<Self, Error>)
       requires lg_arr <= 255,     // one header byte; nothing else is assumed
       ensures
+        /*@C13.set.accepts*/ (compact || lg_arr <= 18) && cursor.rem().len() >= 4
+            && cursor.rem().len() - 4 >= 4 * (if compact { le32_val(cursor.rem().take(4)) as int } else { pow2(lg_arr as nat) as int }) ==> r is Ok,
         /*@C13.set.lg_arr*/ r matches Ok(a) ==> a.container.lg_size == lg_arr,
         /*@C13.set.compact.coupons*/ r matches Ok(a) ==> compact ==> cursor.rem().len() >= 4 && ({
             let n = le32_val(cursor.rem().take(4)) as int; let p = cursor.rem().skip(4);
@@ -762,7 +788,7 @@ proof fn lemma_nz_contains(s: Seq<u32>, x: u32)
 }
 
 fn c11_roundtrip_list(a: &List, lg_config_k: u8, hll_type: HllType) -> (b: List)
-  requires a.container.wf(), a.container.len <= 255,
+  requires a.container.wf(), a.container.len <= 255, a.container.lg_size <= 18,
   ensures
     /*@C11.list.roundtrip*/ nz(b.container.coupons@) == nz(a.container.coupons@) && b.container.len == a.container.len && b.container.lg_size == a.container.lg_size,
     /*@C11.list.cset*/ b.container.cset() == a.container.cset(),
@@ -772,6 +798,7 @@ fn c11_roundtrip_list(a: &List, lg_config_k: u8, hll_type: HllType) -> (b: List)
     let ghost cnt = a.container.len as u8;
     proof {
         lemma_enc_u32s_len(items);
+        lemma_shl_us(a.container.lg_size); lemma_nz_take_le(a.container.coupons@, 0);
         assert(img@.skip(8) =~= enc_u32s(items) + Seq::<u8>::empty());
         lemma_dec_enc_u32s_all(items, Seq::<u8>::empty());
         let f = coupon_flags(cnt == 0, true);
@@ -792,6 +819,7 @@ fn c11_roundtrip_list(a: &List, lg_config_k: u8, hll_type: HllType) -> (b: List)
                 if coupon_count > 0 {
                     assert forall|j: int| 0 <= j < items.len() implies items[j] != 0 by { lemma_nz_nonzero(a.container.coupons@, j); }
                     lemma_nz_id(items);
+                    lemma_nz_append_zeros(items, pow2(lg_arr as nat) - items.len());
                 } else {
                     lemma_nz_all_zero(b.container.coupons@);
                     assert(items =~= Seq::<u32>::empty());
@@ -851,7 +879,7 @@ proof fn lemma_perm_of_nz(l: Seq<u32>, coupons: Seq<u32>)
 fn c11_roundtrip_set(a: &HashSet, lg_config_k: u8, hll_type: HllType) -> (b: HashSet)
   requires a.container.wf(), a.container.lg_size <= 18, a.wf_load(),
   ensures
-    /*@C11.set.roundtrip*/ b.container.cset() == a.container.cset() && b.container.len == a.container.len && b.container.lg_size == a.container.lg_size,
+    /*@C11.set.roundtrip*/ b.container.cset() == a.container.cset() && b.container.lg_size == a.container.lg_size,
     /*@C11.set.wf*/ b.container.wf(),
 {
     let img = a.serialize(lg_config_k, hll_type);
@@ -873,6 +901,9 @@ fn c11_roundtrip_set(a: &HashSet, lg_config_k: u8, hll_type: HllType) -> (b: Has
     match r {
         Ok(b) => {
             proof {
+                let p = img@.skip(8).skip(4); let n = a.container.len as int;
+                assert forall|j: int| 0 <= j < n implies dec_u32_at(p, j) != 0 by { assert(dec_u32s(p, n)[j] == l[j]); }
+                assert(seq_set(l) =~= a.container.cset());
                 assert(b.container.cset() =~= a.container.cset());
             }
             b
